@@ -687,6 +687,43 @@ def fam_setconst(lib, part, par, js, vfs):
             lib.mj_deleteSpec(spec)
 
 
+LAT_AXES = [(1, 0, 0), (0, 1, 0), (0, 0, 1), (1, 1, 0), (1, 0, 1), (0, 1, 1), (1, 1, 1), (-1, 1, 0.3), (0.2, -1, 0.1),
+            (0.1, 0.3, -1), (1, -0.2, 0.1), (-0.3, 0.1, 1), (0.5, 1, -0.5)]
+LAT_ANGLES = [1, 179, 181] + list(range(15, 360, 15))
+
+
+def fam_orient_lattice(lib, part, par, js, vfs):
+    """Every branch of the frame -> quaternion conversions: rotations by 1, 15, 30 .. 345, 179, 181 degrees about 13 axes
+    (the coordinate axes, diagonals, axes close to +-x, +-y, +-z), each written as xyaxes (x not unit, y not orthogonal to
+    x) and as zaxis on a site of its own; the compiled site_quat must be the documented rotation (Gram-Schmidt frame /
+    minimal rotation of z), i.e. equal to the reference quaternion up to sign."""
+    sites, refs = [], []
+    for ai, ax in enumerate(LAT_AXES):
+        for an in LAT_ANGLES:
+            Rm = np.array(_quat2mat(q_axisangle(ax, math.radians(an))))
+            xy = np.concatenate([1.7 * Rm[:, 0], 0.6 * Rm[:, 1] + 0.3 * Rm[:, 0]])
+            sites.append('<site name="x%d_%d" xyaxes="%s"/>' % (ai, an, fmt(xy)))
+            refs.append(("xyaxes", ai, an, q_xyaxes(xy)))
+            z = 0.8 * Rm[:, 2]
+            sites.append('<site name="z%d_%d" zaxis="%s"/>' % (ai, an, fmt(z)))
+            refs.append(("zaxis", ai, an, q_zaxis(z)))
+    xml = '<mujoco><worldbody><body><geom size="0.1"/>%s</body></worldbody></mujoco>' % "".join(sites)
+    m = lib.load_xml(xml, vfs)
+    try:
+        sq = np.array(m.site_quat).reshape(-1, 4)
+        for (kind, ai, an, q), got in zip(refs, sq):
+            err = 1.0 - abs(float(np.dot(q, got)))
+            branch = "trace>0" if np.trace(np.array(_quat2mat(q))) > 0 else "q%d largest" % (1 + int(np.argmax(np.abs(q[1:]))))
+            part.count(1, key=("orient-lattice", kind, branch, ai))
+            if not err <= 1e-12:
+                part.violation("orientation lattice: %s converted to a different rotation" % kind,
+                               "%s for a rotation of %d deg about %s compiles to quat %s, documented %s (conversion branch %s)"
+                               % (kind, an, LAT_AXES[ai], got.tolist(), q.tolist(), branch),
+                               {"family": "orient-lattice", "kind": kind, "axis": LAT_AXES[ai], "angle_deg": an, "xml": xml})
+    finally:
+        m.free()
+
+
 FAMILIES = [("spell", fam_spell), ("degree", fam_degree), ("class", fam_class), ("frame", fam_frame), ("replicate", fam_replicate),
             ("attach", fam_attach), ("fuse", fam_fuse), ("setconst", fam_setconst)]
 
@@ -700,6 +737,8 @@ def _init():
 def _item(state, part, it):
     lib, vfs = state
     fam, par, js = it
+    if fam == "orient-lattice":
+        return fam_orient_lattice(lib, part, par, js, vfs)
     dict(FAMILIES)[fam](lib, part, par, js, vfs)
 
 
@@ -710,7 +749,7 @@ def run(ctx):
     menu = ctx.q(["none", "hinge", "slide", "ball", "free"], ["none", "hinge", "slide", "ball", "free", "hinge2", "slidehinge"])
     bases = list(base_models(nmax, menu))
     _OPTS["attach_depths"] = ctx.q((0, 1, 2), (0, 1, 2, 3))
-    items = [(f, par, js) for par, js in bases for f, _ in FAMILIES]
+    items = [(f, par, js) for par, js in bases for f, _ in FAMILIES] + [("orient-lattice", "-", "-")]
     R.rpmap(ctx, _item, items, init=_init, label=lambda it: "%s %s %s" % it)
     ctx.extra["violation_keys"] = sorted(v[0] for v in ctx.violations)
     ctx.extra["base_models"] = len(bases)
